@@ -33,6 +33,9 @@ def gen_trace(rng):
                 leafs.add(st + rng.choice(SEPS) + rng.choice(SUFS))
             else:
                 leafs.add(st + rng.choice(['', '<0>', '<1>', '_n']))
+        if sc == 'top' and 'top.u' in scopes and rng.random() < 0.6:
+            # a sibling of the scope top.u whose name is the scope's name immediately followed by more text
+            leafs.add('u' + rng.choice(['_valid', '_ready', 'x', '_q', 'data']))
         names[sc] = sorted(leafs)
     lines = ['$timescale 1ns $end']
     opened = []
@@ -222,6 +225,13 @@ def gen_missing(rng, cid):
     names = sorted(info['signals'])
     full = rng.choice(names)
     bad = full + rng.choice(['q', '_x', '.zz'])
+    sib = [n[5:] for n in names if n.startswith('top.u') and '.' not in n[5:] and n[5:] and 'top.u' in info['scopes']
+           and ('top.u.' + n[5:]) not in info['signals']]
+    if sib and rng.random() < 0.5:
+        # S is a real scope, S.n does not exist, but S immediately followed by n does: still an error
+        form = f'(in-scope "top.u" ~{rng.choice(sib)})'
+        return {'id': cid, 'cmds': [['file', 't.vcd', text], ['load', 't.vcd', 'DEFAULT'], ['evalstr', '111', form]],
+                'probes': [('raises', 2, form)]}
     form = rng.choice([f'(in-scope "top" ~{bad[4:]})', f'(in-group "top." #{bad[4:]})', f'(get "{bad}")', f"(do (alias zz '{bad}) zz)",
                        f'(in-scope "{full}" ~nosuch)'])
     return {'id': cid, 'cmds': [['file', 't.vcd', text], ['load', 't.vcd', 'DEFAULT'], ['evalstr', '111', form]],
